@@ -187,7 +187,7 @@ func checkC18(c *run.Ctx) {
 		kid       string
 	}
 	var ids []ident
-	reps := c.N(2, 4)
+	reps := c.N(3, 6) // kids repeat (i%2): pairs 0 and 2 of each algorithm share a key id but must not share key material
 	for _, alg := range []jwa.SignatureAlgorithm{jwa.EdDSA, jwa.ES512, jwa.PS512} {
 		for i := 0; i < reps; i++ {
 			kid := fmt.Sprintf("kid-%s-%d", alg, i%2) // kids repeat across some pairs: same kid, different material
